@@ -176,7 +176,19 @@ def evaluate(prop, cases, mod=None):
     par = getattr(mod, "PARALLEL", 1) if mod else 1
     timeout = getattr(mod, "HARNESS_TIMEOUT", 900) if mod else 900
     hprop = getattr(mod, "HARNESS_PROP", prop) if mod else prop
-    if par > 1 and len(cases) > 1:
+    if mod is not None and hasattr(mod, "python_harness"):
+        # the "harness" of this stream is python code driving the real binary; failing cases are re-run with
+        # slower timing before they count (timing-dependent streams only)
+        impl = mod.python_harness(cases, 0)
+        for attempt in (1, 2):
+            drv = run_lines(DRIVER, ["%s\t%s\t%s" % (hprop, c, i) for c, i in zip(cases, impl)])
+            bad = [k for k, d in enumerate(drv) if not d.endswith("\tok")]
+            if not bad:
+                break
+            redo = mod.python_harness([cases[k] for k in bad], attempt)
+            for k, o in zip(bad, redo):
+                impl[k] = o
+    elif par > 1 and len(cases) > 1:
         from concurrent.futures import ThreadPoolExecutor
         k = min(par, len(cases))
         shards = [cases[i::k] for i in range(k)]
